@@ -33,11 +33,21 @@ def encode_as_wav(base, code, bk_filename, turbo=False):
             + env.PAUSE
             + encode_data_bits(code, env)
             + (env.PAUSE if turbo else b"")
-            + encode_data_bits(struct.pack("<H", sum(code) % (2 ** 16 - 1)), env)
+            + encode_data_bits(struct.pack("<H", checksum(code)), env)
             + env.EOF
         ),
         env.sample_rate
     )
+
+
+def checksum(code):
+    # 16-bit sum with end-around carry, as BK-0010 computes it. This differs from
+    # 'sum % 65535' when the sum is a non-zero multiple of 65535: adding the
+    # carries back yields 0xFFFF, not 0
+    total = sum(code)
+    if total == 0:
+        return 0
+    return (total - 1) % (2 ** 16 - 1) + 1
 
 
 def encode_data_bits(data, env):
